@@ -120,3 +120,72 @@ Proof.
   - unfold outs. destruct group_first; intros o [<-|[<-|[]]]; cbn [oo_f oc og]; auto.
   - unfold outs. destruct group_first; cbn [map oo_f oc og]; auto.
 Qed.
+
+(* ---- any number of outputs: per-row outputs and group formers (one gap threshold) in any order ---- *)
+Lemma rows_and_group_nested G (fs : list (list row -> list row)) :
+  (forall f, In f fs -> (exists h, f = f_row h) \/ f = f_group G) -> nested_cuts fs.
+Proof.
+  intros Hshape f1 f2 H1 H2.
+  destruct (Hshape f1 H1) as [[h1 ->]| ->]; destruct (Hshape f2 H2) as [[h2 ->]| ->].
+  - left. intros I x _ Hs. apply straddled_f_row. apply straddled_f_row in Hs. exact Hs.
+  - left. intros I x Hd Hs. exact (row_cut_group_cut h1 G I x Hd Hs).
+  - right. intros I x Hd Hs. exact (row_cut_group_cut h2 G I x Hd Hs).
+  - left. intros I x _ Hs. exact Hs.
+Qed.
+
+Theorem rows_and_group_chunking_independent G wtuple wl wr ml mr outs orun otgt sw R a b dt run cs :
+  0 <= wl -> 0 <= wr -> ml <= 2 * wl -> mr <= 2 * wr -> (1 < length outs)%nat ->
+  (forall o, In o outs -> window_local ml mr (oo_f o)) ->
+  (forall o, In o outs -> (exists h, oo_f o = f_row h) \/ oo_f o = f_group G) ->
+  dsp R -> chunking_of R a b dt run cs ->
+  exists items,
+    ow_iter (mk_ow_params wtuple wl wr outs orun otgt sw) cs = Ok items /\
+    forall k o, nth_error outs k = Some o ->
+      flat_map crows (out_stream k items) = oo_f o R /\
+      contiguous_from a (out_stream k items) /\ last_end a (out_stream k items) = b /\
+      Forall wf (out_stream k items).
+Proof.
+  intros Hwl Hwr H1 H2 Hlen Hloc Hshape HR Hch.
+  apply (overlap_multi_correct wtuple wl wr ml mr outs orun otgt sw R a b dt run cs); auto.
+  apply (rows_and_group_nested G). intros f Hf. apply in_map_iff in Hf as (o & <- & Ho). auto.
+Qed.
+
+(* the harness's outputs: neighbour counts (kernel window (kl, kr)), plain copies and group formers
+   (threshold G), ANY number >= 2 of them in ANY order (the three-output plugins copy / count around
+   the group former of the C09 generator are instances) *)
+Theorem harness_outputs_chunking_independent kl kr G wtuple wl wr outs orun otgt sw R a b dt run cs :
+  0 <= kl -> 0 <= kr -> kl <= 2 * wl -> kr <= 2 * wr -> 0 <= G -> G <= 2 * wl -> G <= 2 * wr ->
+  (1 < length outs)%nat ->
+  (forall o, In o outs -> oo_f o = f_count kl kr \/ oo_f o = f_copy \/ oo_f o = f_group G) ->
+  dsp R -> chunking_of R a b dt run cs ->
+  exists items,
+    ow_iter (mk_ow_params wtuple wl wr outs orun otgt sw) cs = Ok items /\
+    forall k o, nth_error outs k = Some o ->
+      flat_map crows (out_stream k items) = oo_f o R /\
+      contiguous_from a (out_stream k items) /\ last_end a (out_stream k items) = b /\
+      Forall wf (out_stream k items).
+Proof.
+  intros Hkl Hkr H1 H2 HG HG1 HG2 Hlen Hkind HR Hch.
+  apply (rows_and_group_chunking_independent G wtuple wl wr (Z.max kl G) (Z.max kr G) outs orun otgt sw R a b dt run cs);
+    auto; try lia.
+  - intros o Ho. destruct (Hkind o Ho) as [-> | [-> | ->]].
+    + eapply window_local_mono; [| |apply f_count_window_local; auto]; lia.
+    + eapply window_local_mono; [| |apply f_copy_window_local]; lia.
+    + eapply window_local_mono; [| |apply f_group_window_local; auto]; lia.
+  - intros o Ho. destruct (Hkind o Ho) as [-> | [-> | ->]].
+    + left. exists (h_count kl kr). reflexivity.
+    + left. eexists. reflexivity.
+    + right. reflexivity.
+Qed.
+
+(* non-vacuity: a three-output parameter set of the generator (copy, group former, count) meets the
+   hypotheses, on a run where the group former merges rows across the cut points of the other two *)
+Example harness_triple_example :
+  let outs := [mk_ow_out f_copy 20 10; mk_ow_out (f_group 2) 21 11; mk_ow_out (f_count 1 1) 22 12] in
+  (1 < length outs)%nat /\
+  (forall o, In o outs -> oo_f o = f_count 1 1 \/ oo_f o = f_copy \/ oo_f o = f_group 2) /\
+  f_group 2 [mkrow 0 1 0 0; mkrow 1 2 1 0; mkrow 2 3 2 0] = [mkrow 0 3 0 3].
+Proof.
+  cbn zeta. split; [cbn; lia|]. split; [|reflexivity].
+  intros o [<-|[<-|[<-|[]]]]; cbn [oo_f]; auto.
+Qed.
